@@ -41,7 +41,8 @@ AL == { <<>>,
         << << <<T("lit", "("), T("lit", "a1"), T("lit", ","), T("lit", "a2"), T("lit", ")")>>, <<T("str", "\"s,t\"")>> >> >> }  \* ((a1,a2),"s,t")
 
 BodyAlpha == { T("lit", "k"), T("id", "x"), T("id", "y"), T("id", "z"), T("paste", ""),
-               T("str", "\"x\""), UseT("N", <<>>), UseT("N1", << << <<T("id", "x")>> >> >>),
+               \* an ordinary string literal is left untouched: no substitution of x, no comment, no usage, no paste inside
+               T("str", "\"x //y /*z*/ `N `` w\""), UseT("N", <<>>), UseT("N1", << << <<T("id", "x")>> >> >>),
                [k |-> "bqs", n |-> "", a |-> <<T("lit", "s "), T("id", "x"), T("lit", " e")>>, g |-> FALSE, s |-> ""],
                T("cont", ""), T("undef", "N"), DefT("N", "n3"),
                \* conditionals inside the body: on a macro that the body itself may undefine / redefine, and on a formal's name
